@@ -9,3 +9,19 @@ ENGINES = [
 chk("C32", "exploration", "exhaustive enumeration of all 16/32-bit values (adjacent-pair monotonicity => total order), boundary alphabet for 64-bit and event IDs",
     "Every 16-bit value and pair, every 32-bit value of each encoder (thorough; quick: one encoder fully, the others on a boundary alphabet) is enumerated; round trip and strict monotonicity are checked directly on the real functions.",
     "64-bit values cannot be enumerated: a structured byte alphabet (390k values) is used and reported exhaustive:false. bytes.Compare is the byte-wise order.", "E4; DESIGN §4 C32")
+
+chk("C11", "exploration", "exhaustive enumeration of all totals 1..2^31-1 through the real constructor; explicit-state exploration of WeightCounter call sequences",
+    "Thorough enumerates every total from 1 to 2^31-1 (quick: all totals <= 2^22 plus windows around every power of two / thirds / the maximum) and checks quorum formula and the three set-theoretic claims in 64-bit arithmetic; all validator sets with n<=4 over a boundary weight alphabet with all subsets and subset pairs; all Count/CountByIdx sequences to depth n+2 against a bitmap model.",
+    "Quorum() reads only the cached total weight, so a one-validator set per total exercises it for every total.", "E4; DESIGN §4 C11")
+chk("C12", "exploration", "exhaustive enumeration of all Set() sequences (<=4) over a colliding (ID,weight) alphabet, and of all 1-4 big-stake tuples; reference = plain sort",
+    "Every insertion order, overwrite and zero-delete of every multiset over the alphabet is executed on the real builder; canonical order, index maps, totals, Copy/Builder, RLP encode/decode fixpoint are compared with a reference computed from the final non-zero pairs only. Big builder: every tuple of boundary stakes up to 2^256.",
+    "go-ethereum rlp is trusted as the codec.", "E4; DESIGN §4 C12")
+chk("C13", "exploration", "exhaustive product of boundary field values x parent lists against the statement's predicate",
+    "Every combination of boundary values for seq/epoch/frame/lamport, epoch match, creator membership and every ordered parent list of length 0-3 (duplicates included) from a parent pool defined relative to the event is validated by the real checkers; accept/reject must equal the predicate transcribed from the property statement.",
+    "Parents passed to the checker are the events named by the event's parent IDs.", "E4; DESIGN §4 C13")
+chk("C21", "exploration", "exhaustive product of boundary timestamps/thresholds against an exact big-integer reference",
+    "All combinations of 11 boundary timestamps (zero time, +-1ns around the threshold, beyond the +-292y Duration range) for the five guarded timestamps x 6 thresholds x peers x 2 Now values; verdict and wait compared with exact nanosecond arithmetic.",
+    "Timestamps carry no monotonic reading. One residual finding (negative threshold) is listed in known_findings.txt.", "E4; DESIGN §4 C21")
+chk("C31", "exploration", "small-scope exhaustive enumeration of dot lists and inputs plus boundary products and full-segment sweeps against exact big-integer interpolation",
+    "All dot lists of length 0-3 over coordinates 0..6 with all x in 0..7; all 2-3 dot lists over the range-extreme alphabet; every x of segments with chosen dX (up to 10^6+1, thorough 3*10^6) and dY; plateau, exactness at dots, min-1 <= f <= max, tolerance |dY|/1e6+2 and rejection of invalid lists are checked on each.",
+    "All 2^64 inputs cannot be enumerated; coverage is the three stated finite domains.", "E4; DESIGN §4 C31")
